@@ -47,6 +47,9 @@ def mk_tables():
         # (configure, parse something, remove, parse the name), see observe()
         "default_removed": dict(elems=[x for x in de if x not in ("D", "Si")], pseudoRaw=[x for x in dp if x != "o"], grain="GRAIN", surf="#", repl={},
                                 reached_from=dict(elems=de, pseudoRaw=dp, rm_e=["D", "Si"], rm_p=["o"])),
+        # the default lists after add_known_elements(["X", "M"]): two symbols of the default PSEUDO list are promoted to elements
+        "default_promoted": dict(elems=de + ["X", "M"], pseudoRaw=[x for x in dp if x not in ("X", "M")], grain="GRAIN", surf="#", repl={},
+                                 reached_from=dict(elems=de, pseudoRaw=dp, rm_e=[], rm_p=[], add_e=["X", "M"])),
     }
     for t in T.values():
         t["pseudo"] = [re.sub(r"\\(.)", r"\1", p) for p in t["pseudoRaw"]]
@@ -88,6 +91,8 @@ def observe(t, name: str, toks):
             pass
         Species.remove_known_elements(list(rf["rm_e"]))
         Species.remove_known_pseudoelements(list(rf["rm_p"]))
+        if rf.get("add_e"):
+            Species.add_known_elements(list(rf["add_e"]))
     else:
         Species.set_known_elements(list(t["elems"]))
         Species.set_known_pseudoelements(list(t["pseudoRaw"]))
@@ -221,6 +226,9 @@ def main(ctx: Ctx) -> int:
     # after symbols were REMOVED from the configured lists, names that use them are refused (and the others parse as before)
     for nm in ("HD+", "SiO", "oH2", "D2", "SiH4", "#HDO", "H2O", "CO", "pH2", "HCO+", "Si", "D"):
         add("default_removed", nm, [], origin="after removal")
+    # after two pseudo symbols were PROMOTED to elements, they count like any element
+    for nm in ("XH2", "X", "X+", "MH", "M", "M+", "#XO", "H2O", "oH2", "MgX2", "CX-"):
+        add("default_promoted", nm, [], origin="after promotion")
     # names that begin with digits belonging to no configured symbol (an isotope that is not in the element list, a stray multiplicity)
     for nm in ("13CO", "15NH3", "18OH-", "2H", "3He+", "1GRAIN-", "13C", "12CH4", "17O"):
         add("default", nm, [], origin="leading digits")
